@@ -241,6 +241,9 @@ PROPS = {
         "theorems": [
             "BPT.Props.C03.range_eq_filter", "BPT.Props.C03.items_range_eq", "BPT.Props.C03.items_from_key_eq",
             "BPT.Props.C03.empty_or_inverted_is_empty",
+            "BPT.Props.C03.mem_range_iff",
+            "BPT.Props.C03.range_unbounded_all",
+            "BPT.Props.C03.range_split",
             "BPT.Props.C03.Legacy.range_excluded_absent_drops_first", "BPT.Props.C03.Legacy.included_end_key_ignored",
             "BPT.Props.C02.reachable_sinv",
         ],
